@@ -551,6 +551,15 @@ def constructor_fidelity(check: Check, rule: str = "R1-sem", bases: tuple[str, .
                 if not same:
                     bad = bad or (f"{c.name}({pname}={v!r}) stores {got!r} as `{pname}`: the constructor does not keep the argument it is given "
                                   "(a default applied through the truth value of the argument loses 0, 0.0, False and the empty text)")
+        # two objects built with the defaults share no mutable container (a mutable default argument, a class-level list: what one object is
+        # given later - a function's own variables, a variable's terms - would then show in every other one)
+        try:
+            o1, o2 = ex.instantiate(c, [], {}, E0), ex.instantiate(c, [], {}, E0)
+            for k, v in o1.fields.items():
+                if isinstance(v, (list, dict, set)) and k in o2.fields and o2.fields[k] is v:
+                    bad = bad or f"two {c.name} objects built with the default arguments share the same {type(v).__name__} as `{k}`: what is added to one shows in the other"
+        except (Unknown, Raised, Internal):
+            pass
         check.require(bad is None, rule, f"{c.name}.__init__/stores-arguments", f"{c.name}: number, flag and text arguments are stored as given, the edge values included"
                       if bad is None else bad, loc(init), exhaustive=True, cases=n)
     check.notes.append(f"{rule}: {n} (class, parameter, value) cases, {n_und} outside the interpreter's model")
